@@ -97,6 +97,9 @@ def programs(tier):
                                            i18n_attributes='title the-id; lang'),
                                         el('q', 'y', static=[['title', ''], ['alt', '']], i18n_attributes='title; alt alt-id')),
         [['v', 'maybe3', 0]])
+    # names of i18n:name blocks that differ only in characters which cannot be part of an identifier
+    add('names-differing-in-punctuation', doc(el('p', 'A ', el('b', 'x', I('v'), i18n_name='a-b'), ' and ', el('i', 'y', i18n_name='a_b'),
+                                                 ' or ', el('u', 'z', i18n_name='a.b'), i18n_translate='')), [['v', 'int', 0]])
     add('implicit-and-explicit', doc(el('img', static=[['alt', ['Logo of ', I('site')]], ['title', 'T']],
                                         i18n_attributes='alt; title')),
         [['site', 'int', 0]], options={'implicit_i18n_attributes': ['alt', 'title']})
